@@ -1,11 +1,13 @@
 (* Dispatcher: one case = list of integers, first the kind. *)
 From Coq Require Import ZArith List.
-From RRTK Require Import Num.Num Num.B32 Model.Values Model.Prog Model.Wire.
+From RRTK Require Import Num.Num Num.B32 Model.Values Model.Prog Model.Wire Model.WireStreams.
 Import ListNotations.
 Local Open Scope Z_scope.
 
 Definition run_case (l : list Z) : list Z :=
   match l with
   | 1 :: r => run_prog_case r
+  | 3 :: r => run_comb_case r
+  | 4 :: r => run_strm_case r
   | _ => [W_BAD]
   end.
